@@ -147,6 +147,9 @@ func ParseSliceHeader(nalu []byte, spsMap map[uint32]*SPS, ppsMap map[uint32]*PP
 			PicSizeInCtbsY = PicWidthInCtbsY * PicHeightInCtbsY
 		*/
 		CtbSizeY := uint(1 << (sps.Log2MinLumaCodingBlockSizeMinus3 + 3 + sps.Log2DiffMaxMinLumaCodingBlockSize))
+		if CtbSizeY == 0 { // shift count of 64 or more from out-of-range SPS values: would divide by zero
+			return nil, fmt.Errorf("invalid luma coding block size in SPS %d", pps.SeqParameterSetID)
+		}
 		PicSizeInCtbsY := ceilDiv(uint(sps.PicWidthInLumaSamples), CtbSizeY) *
 			ceilDiv(uint(sps.PicHeightInLumaSamples), CtbSizeY)
 		sh.SegmentAddress = r.Read(bits.CeilLog2(PicSizeInCtbsY))
@@ -237,6 +240,9 @@ func ParseSliceHeader(nalu []byte, spsMap map[uint32]*SPS, ppsMap map[uint32]*PP
 						lt.DeltaPocMsbCycleLt = r.ReadExpGolomb()
 					}
 					sh.LongTermRefPicSets = append(sh.LongTermRefPicSets, lt)
+					if r.AccError() != nil {
+						break // untrusted count: stop at the end of the data
+					}
 				}
 			}
 			if sps.SpsTemporalMvpEnabledFlag {
@@ -262,6 +268,12 @@ func ParseSliceHeader(nalu []byte, spsMap map[uint32]*SPS, ppsMap map[uint32]*PP
 				if sh.SliceType == SLICE_B {
 					sh.NumRefIdxL1ActiveMinus1 = uint8(r.ReadExpGolomb())
 				}
+			}
+
+			if sh.NumRefIdxL0ActiveMinus1 > 14 || sh.NumRefIdxL1ActiveMinus1 > 14 {
+				// range 0..14 (7.4.7.1); the values size slices as uint8(value)+1, where 255 wraps to 0
+				return sh, fmt.Errorf("num_ref_idx_active_minus1 out of range: %d, %d",
+					sh.NumRefIdxL0ActiveMinus1, sh.NumRefIdxL1ActiveMinus1)
 			}
 
 			if pps.ListsModificationPresentFlag {
@@ -344,11 +356,19 @@ func ParseSliceHeader(nalu []byte, spsMap map[uint32]*SPS, ppsMap map[uint32]*PP
 		sh.NumEntryPointOffsets = r.ReadExpGolomb()
 		if sh.NumEntryPointOffsets > 0 {
 			// value shall be in the range of 0 to 31, inclusive
-			sh.OffsetLenMinus1 = uint8(r.ReadExpGolomb())
+			offsetLenMinus1 := r.ReadExpGolomb()
+			if offsetLenMinus1 > 31 {
+				return sh, fmt.Errorf("offset_len_minus1 out of range: %d", offsetLenMinus1)
+			}
+			sh.OffsetLenMinus1 = uint8(offsetLenMinus1)
 			if sh.NumEntryPointOffsets > 0 {
-				sh.EntryPointOffsetMinus1 = make([]uint32, sh.NumEntryPointOffsets)
+				// The count is untrusted: grow with the data actually read and stop at its end
 				for i := uint(0); i < sh.NumEntryPointOffsets; i++ {
-					sh.EntryPointOffsetMinus1[i] = uint32(r.Read(int(sh.OffsetLenMinus1 + 1)))
+					sh.EntryPointOffsetMinus1 = append(sh.EntryPointOffsetMinus1,
+						uint32(r.Read(int(sh.OffsetLenMinus1)+1)))
+					if r.AccError() != nil {
+						break
+					}
 				}
 			}
 		}
